@@ -583,6 +583,46 @@ func reconcileRule() string {
 		die("doKillTasks no longer sends KILL to the ACTIVE tasks of the set")
 	}
 
+	// doKillTasks: once the (slow, network-bound) KILL calls have started, is the roster only changed
+	// task by task (append of the task that could not be killed), or is a whole task list written
+	// (updateTasks) - a list computed before the calls, so that whatever was appended to the roster
+	// meanwhile (another environment's deployment) is lost?
+	writesBackSnapshot := false
+	{
+		firstKill := token.NoPos
+		ast.Inspect(dk.Body, func(x ast.Node) bool {
+			if c, ok := x.(*ast.CallExpr); ok {
+				if sel, ok := c.Fun.(*ast.SelectorExpr); ok && (sel.Sel.Name == "doKillTask" || sel.Sel.Name == "killTask") {
+					if firstKill == token.NoPos || c.Pos() < firstKill {
+						firstKill = c.Pos()
+					}
+				}
+			}
+			return true
+		})
+		// a kill call inside a loop runs again after everything else in that loop
+		loopStart := firstKill
+		ast.Inspect(dk.Body, func(x ast.Node) bool {
+			switch l := x.(type) {
+			case *ast.RangeStmt, *ast.ForStmt:
+				if l.Pos() <= firstKill && firstKill < l.End() && l.Pos() < loopStart {
+					loopStart = l.Pos()
+				}
+			}
+			return true
+		})
+		ast.Inspect(dk.Body, func(x ast.Node) bool {
+			if c, ok := x.(*ast.CallExpr); ok {
+				if sel, ok := c.Fun.(*ast.SelectorExpr); ok && sel.Sel.Name == "updateTasks" && strings.Contains(rcSrc(sel.X), "roster") {
+					if firstKill != token.NoPos && c.Pos() > loopStart {
+						writesBackSnapshot = true
+					}
+				}
+			}
+			return true
+		})
+	}
+
 	// KillTasks(ids): does it take anything out of the roster that is not in its kill list?  The kill
 	// list is a local defined as `<roster>.filtered(<the named filter>)`; every other local that holds
 	// roster tasks (e.g. `unkillable := roster.filtered(func..{ return !filter(t) })`: ALL the other
@@ -762,6 +802,8 @@ func reconcileRule() string {
 	fmt.Fprintf(&b, "Definition reconcile_every_subscribed : bool := %v.\n", everySubscribed)
 	b.WriteString("(* updateTaskStatus: is the refresh of the agent id / executor id of the roster task done only when\n   the status carries the field (a reconciliation answer need not)? *)\n")
 	fmt.Fprintf(&b, "Definition status_refresh_guarded : bool := %v.\n", refreshGuarded)
+	b.WriteString("(* doKillTasks: is a whole task list written to the roster (updateTasks) after the KILL calls have\n   started (lost update against a concurrent append)? *)\n")
+	fmt.Fprintf(&b, "Definition dokill_writes_back_snapshot : bool := %v.\n", writesBackSnapshot)
 	b.WriteString("(* KillTasks(ids): does a roster write of KillTasks itself involve roster tasks that are not in its\n   kill list? *)\n")
 	fmt.Fprintf(&b, "Definition killtasks_removes_unlisted : bool := %v.\n", killRemovesUnlisted)
 	b.WriteString("(* doKillTasks (KillTasks, Cleanup): do the tasks of the set that are not ACTIVE get a KILL call too? *)\n")
